@@ -538,9 +538,11 @@ def _alphabet(name):
 
 def exhaustive(maxlen, short_for_variants=False):
     """With short_for_variants the names that only vary what is opaque to the model (falsy node
-    classes, `_items` names) are enumerated one step shorter."""
+    classes, `_items` names) and the names with more than 32 letters are enumerated one step shorter."""
     for name, prefix in EXH:
-        if short_for_variants and name[0] in "FZN":
+        if short_for_variants and (name[0] in "FZN" or len(_alphabet(name)) > 32):
+            # thorough tier: the two names with 40+ letter alphabets (two container kinds on two objects) would
+            # alone be 390 000 of 850 000 histories; they are enumerated to length 2 and covered by the random stream
             yield from _exhaustive_one(name, prefix, maxlen - 1)
         else:
             yield from _exhaustive_one(name, prefix, maxlen)
